@@ -1,2 +1,11 @@
-From BT Require Import Base.Util.
+From BT Require Import Base.Util Base.Float Model.RTree Model.BBIFile Model.BigWigWrite Model.BBIRead
+  Proofs.Chunks Proofs.BigWigQuery.
 From BT Require Properties.C01.
+Local Open Scope N_scope.
+Check (C01.C01_accept_iff : forall len vals, check_chrom len vals = Ok tt <-> wf_vals len vals).
+Check (C01.C01_query_sections : forall len ips s e vals, (0 < ips)%nat -> wf_vals len vals ->
+  flat_map (clip_filter s e) (filter (chunk_hit s e) (chunks ips vals)) = clip_filter s e vals).
+Check (C01.C01_full_span_read : forall len vals, wf_vals len vals ->
+  clip_filter 0 len vals = filter (fun v => negb (boundary_zero len v)) vals).
+Check (C01.C01_roundtrip_exact : forall len vals, wf_vals len vals ->
+  Forall (fun v => boundary_zero len v = false) vals -> clip_filter 0 len vals = vals).
